@@ -133,6 +133,9 @@ def subspaces(tier):
             for x in stmts([cpu], 2 if not q else 1, 'asan' if not q else 'plain', fam[key[0]]):
                 yield x
     subs.append(('2:family-pseudo-ops', famstmts()))
+    # 2b. data-definition statements of every syntax family on one CPU of EVERY code generator (the CPU statements of the golden
+    # sources): the statement may be unknown or rejected there, but it must not crash
+    subs.append(('2:data-statements-on-every-target', data_on_all_targets()))
     # 3. operand faults over the corpus (thorough)
     if not q:
         subs.append(('3:corpus-operand-faults', corpus_faults()))
@@ -170,6 +173,29 @@ def subspaces(tier):
     subs.append(('5:code-file-prefixes-and-substitutions', filefaults()))
     subs.append(('5:dasl-images', dasl_cases(q)))
     return subs
+
+
+def all_cpus():
+    seen = []
+    for t in corpus.tests():
+        try:
+            txt = open(os.path.join(corpus.tdir(), t, t + '.asm'), 'rb').read().decode('latin-1')
+        except OSError:
+            continue
+        for m in re.finditer(r'^\s+cpu\s+([A-Za-z0-9_/.:=+-]+)', txt, re.M | re.I):
+            c = m.group(1).lower()
+            if c not in seen:
+                seen.append(c)
+    return seen
+
+
+def data_on_all_targets():
+    ops = ['db', 'dw', 'dd', 'dq', 'dt', 'dn', 'ds', 'dc.b', 'dc.w', 'dc.l', 'ds.b', 'byt', 'fcb', 'fcc', 'adr', 'fdb', 'rmb', 'data', 'byte', 'word', 'long', 'float', 'zero', 'res', 'bss', 'dfs', 'defb', 'defw', 'align']
+    args = ['1,2,3', '?', '"ab"', '1.5', '2 dup (7)', '']
+    for cpu in all_cpus():
+        for op in ops:
+            for a in args:
+                yield {'k': 'stmt', 'cpu': cpu, 'op': op, 'args': [a] if a else [], 'lab': 1, 'close': 0, 'v': 'plain'}
 
 
 def corpus_faults():
